@@ -63,6 +63,8 @@ def run(ctx):
     ctx.counted('dir_fd / iglob / pathlib / cloned matchers vs glob', nfe, nfe // 2, [{'pattern': 'vis/*'}])
     nin_ = globcommon.inert_arguments(ctx, rng, 3 if ctx.quick else 6)
     ctx.counted('arguments that cannot change the answer (inert exclude=, root spelling, NOUNIQUE)', nin_, nin_ // 2, [{'pattern': '**', 'exclude': 'zz-no-such-name*'}])
+    nfr_ = globcommon.fringe_names(ctx)
+    ctx.counted('non-ASCII entry names: exact spellings are found, the walk stays inside the matcher', nfr_, nfr_ // 2, [{'entry': '\u0130stanbul.txt', 'flags': 'IGNORECASE'}])
     ntn_ = globcommon.trailing_newline_names(ctx)
     ctx.counted('names ending in a line feed: walk (str, bytes, dir_fd, descriptor 0, pathlib) vs REALPATH matcher', ntn_, ntn_ // 2, [{'pattern': '[b]', 'entry': 'b\\n'}])
     nug_ = globcommon.unclosed_group_paths(ctx)
